@@ -142,26 +142,52 @@ def pipeline(env, **cfg):
         env.holds("C09", "no branch of the compressible chain depends on the Mach number (results vary continuously with Mach below 1)", not bad, str(bad))
 
 
-@job("c09.mach0", ("C09",), cfgs=[dict(nx=2, ny=2, symmetry=True, side="left", nsurf=1, _tier=T), dict(nx=2, ny=2, symmetry=False, nsurf=1, _tier=T)], ranges=RG9, cost=60)
+@job("c09.kernel_rotation", ("C09",), ranges=[(r"^(r1|r2|r)", -1.5, 1.5), (r"alpha", 0.05, 0.3)], cost=5)
+def kernel_rotation(env):
+    """rotation lemma at kernel level (full real bodies): for the wind-frame rotation Q(alpha, 0) about the y axis,
+    f(Q r1, Q r2) == Q f(r1, r2) and semi(Q u, Q r) == Q semi(u, r), with Q (cos a, 0, sin a) == e_x"""
+    import openaerostruct.aerodynamics.eval_mtx as E
+    xp = env.xp
+    env.indicator_branch = 1
+    a = env.var("alpha", ())
+    Q = wind_matrix(env, a, 0 * a)
+    r1, r2, r = env.var("r1", (3,)), env.var("r2", (3,)), env.var("r", (3,))
+    u = np.array([xp.cos(a), 0 * a, xp.sin(a)], dtype=object if env.sym else float)
+    R = lambda x: mm(env, Q, x)
+    env.eq("C09", "the wind-frame rotation takes the wake direction to the x axis", R(u), np.array([1, 0, 0]))
+    env.eq("C09", "finite segment: f(Q r1, Q r2) == Q f(r1, r2)", env.call(E._compute_finite_vortex, R(r1), R(r2)), R(env.call(E._compute_finite_vortex, r1, r2)))
+    env.eq("C09", "trailing leg: semi(Q u, Q r) == Q semi(u, r)", env.call(E._compute_semi_infinite_vortex, R(u), R(r)), R(env.call(E._compute_semi_infinite_vortex, u, r)))
+
+
+@job("c09.mach0", ("C09",), cfgs=[dict(nx=2, ny=3, symmetry=True, side="left", nsurf=1), dict(nx=2, ny=2, symmetry=False, nsurf=1),
+                                   dict(nx=2, ny=2, symmetry=True, side="right", nsurf=2, tail_sym=False, _tier=T)], ranges=RG9, cost=40)
 def mach0(env, **cfg):
-    """at Mach 0 and zero sideslip the compressible and the incompressible solvers coincide (vortex kernel with its full
-    real body; clause on the branch where the kernel's tolerance mask is inactive)"""
+    """at Mach 0 and zero sideslip the compressible and the incompressible solvers coincide.  The incompressible run is
+    expressed in the wind frame through the kernel rotation lemma (c09.kernel_rotation), where the compressible solver
+    works; the linear solve is carried by the residual-identity lemma"""
+    from .. import helpers
     surfs = surfaces_for(cfg)
     gc = gsx.GroupSX(env, gsx.aero_model(surfs, compressible=True), key="C")
     gi = gsx.GroupSX(env, gsx.aero_model(surfs, compressible=False), key="I")
-    env.indicator_branch = 1
     given = base_inputs(env, gc, surfs)
     given["beta"] = env.const(np.zeros(1))
     given["Mach_number"] = env.const(np.zeros(1))
-    vi = gi.run(given)
-    soli = list(gi.solves)
     if env.sym:
+        env.use_helpers("eval_mtx")
+        a = np.asarray(given["alpha"]).reshape(-1)[0] * env.pi / 180
+        Q = wind_matrix(env, a, 0 * a)
+        helpers.FRAME[0] = (Q, Q.T)
+        vi = gi.run(given)
+        helpers.FRAME[0] = None
+        soli = list(gi.solves)
         vc = gc.run(given, hints={"solve_matrix": lambda rec: np.asarray(soli[0]["x"], dtype=object).reshape(-1)})
         r1 = soli[0]
         A1 = r1["A"].T if r1["trans"] else r1["A"]
         res1 = spshim._mm(A1, np.asarray(r1["x"], dtype=object).reshape(-1)) - np.asarray(r1["b"], dtype=object).reshape(-1)
         env.eq("C09", "Mach 0: the incompressible circulations solve the compressible solver's system", gc.solves[0]["residual_at_phi"], res1)
+        env.assumptions.add("non-singular AIC matrix (uniqueness of the circulations)")
     else:
+        vi = gi.run(given)
         vc = gc.run(given)
     for s in surfs:
         n = s["name"]
